@@ -49,7 +49,7 @@ def closure_context(live_in):
     if 'include_annotations' in a:
       # default configuration: include_annotations is True
       assume = assume & (~atom(a) if 'not self.include_annotations' in a else atom(a))
-  ex = [a for a in live_in.f.atoms if a.startswith('EXISTS[reaching')]
+  ex = [a for a in live_in.f.atoms if a.startswith('EXISTS[') and 'DEFINED_FNS_IN' in a]
   if not ex:
     return assume, None
   reach = atom(ex[0])
@@ -126,7 +126,7 @@ def check(model, rep, tier):
             'analysis)', {'inplace': inplace}, line=vn.node.lineno)
 
   # ---------------------------------------------------------------- LV-CLOSURE
-  ex = [a for a in live_in.f.atoms if a.startswith('EXISTS[reaching')]
+  ex = [a for a in live_in.f.atoms if a.startswith('EXISTS[') and 'DEFINED_FNS_IN' in a]
   lam = [a for a in live_in.f.atoms if 'lamba_check' in a or 'Lambda' in a]
   if not ex:
     rep.violation('LV-CLOSURE', '%s:closure-rule' % vn.site,
